@@ -74,7 +74,7 @@ class Node(Component):
         if self.spec.get("fail") == phase:
             raise Boom(phase)
         if self.spec.get("stall") == phase:
-            await anyio.sleep(60)
+            await anyio.sleep(30)
         LOG.append((phase + ":exit", sid))
 
 
@@ -207,6 +207,8 @@ async def run_tree(sc):
         n["spec"].pop("stall", None)
     if sc.get("fail"):
         nodes[sc["fail"][0]][1]["spec"]["fail"] = sc["fail"][1]
+    if sc.get("stall"):
+        nodes[sc["stall"][0]][1]["spec"]["stall"] = sc["stall"][1]
     rnd = random.Random(sc.get("split_seed", 0))
     cfg = build_config(tree, lambda alias: rnd.choice(["hard", "ext"]))
     cfg_before = copy.deepcopy({k: v for k, v in cfg.items()})
@@ -243,7 +245,7 @@ async def run_tree(sc):
                     want_tag = None if t == 999 else f"tag{t}"
                     if len(got) != 1 or got[0][4] != want_tag:
                         problems.append(f"C05/C06: component {nid} asked for R{t}/{name!r} in {ph}() and got {got!r}, expected tag {want_tag!r}")
-    elif not sc.get("fail"):
+    elif not sc.get("fail") and not sc.get("stall"):
         problems.append(f"C05/C06: an acyclic pattern of components waiting for each other's resources did not complete: {err!r}")
     # ---- the same configuration object starts an equal tree again (C14 / C05)
     if err is None and sc.get("twice"):
@@ -319,6 +321,18 @@ async def run_tree(sc):
                         problems.append(f"C07: start() of ancestor {nid} ran although descendant {fid} failed")
         elif err is not None:
             problems.append(f"unexpected error {err!r}")
+    elif sc.get("stall"):
+        sid_, sphase = sc["stall"]
+        spath, snode = nodes[sid_]
+        stalls = {"prepare": snode["cls"][0], "start": snode["cls"][1]}[sphase]
+        if stalls and not isinstance(err, TimeoutError):
+            problems.append(f"C07: component {sid_} stalls in {sphase}() with timeout={sc.get('timeout')}: start_component raised {err!r} instead of TimeoutError")
+        if not stalls and err is not None:
+            problems.append(f"C07: start_component raised {err!r} although nothing stalls")
+        if stalls:
+            for nid, (path, n) in nodes.items():
+                if n is not snode and any(d is snode for _, d in all_nodes(n)) and ("start:enter", nid) in pos:
+                    problems.append(f"C07: start() of ancestor {nid} ran although descendant {sid_} never finished starting")
     elif err is not None:
         problems.append(f"start_component raised {err!r} on a healthy tree")
     elif result is None or result.spec.get("id") != tree["spec"]["id"]:
@@ -337,7 +351,12 @@ def gen_scenario(rnd, prop):
     tree = gen_tree(rnd, 2, ids)
     add_resources(rnd, tree)
     sc = {"tree": tree, "split_seed": rnd.randint(0, 1000), "twice": rnd.random() < 0.3}
-    if prop == "C07" or rnd.random() < 0.3:
+    r = rnd.random()
+    if prop == "C07" and r < 0.2:
+        # a stalling component and a short timeout (the waits of other components for its resources are cut by the same timeout)
+        sc["stall"] = (rnd.choice(ids), rnd.choice(["prepare", "start"]))
+        sc["timeout"] = 0.05
+    elif prop == "C07" or r < 0.3:
         nid = rnd.choice(ids)
         sc["fail"] = (nid, rnd.choice(["creating", "prepare", "start"]))
     return sc
@@ -370,11 +389,13 @@ def make_harness(prop):
                 return {"violation": True, "input": sc, "detail": "; ".join(p[:3]), "evaluations": i + 1, "distinct": len(seen)}
         return {"violation": False, "evaluations": n, "distinct": len(seen),
                 "scope": "random component trees (depth <= 3, fan-out <= 3, with/without prepare/start, children hard-coded or from config, "
-                         "aliases with /name), optional single failing component in creating/prepare/start"}
+                         "aliases with /name), optional single failing component in creating/prepare/start, for C07 also a stalling component with a 0.05 s timeout"}
 
     def replay(sc):
         if sc.get("fail"):
             sc["fail"] = tuple(sc["fail"])
+        if sc.get("stall"):
+            sc["stall"] = tuple(sc["stall"])
 
         def fix(n):
             n["cls"] = tuple(n["cls"])
